@@ -20,7 +20,8 @@ RULES = {
                  'containers); reported in the evidence, each known item with its classification (scratch: written before '
                  'read in the same call; memo: value is a pure function of its key; configuration)',
     'R-CACHEKEY': 'the rule cache is empty at import or every pre-seeded entry is the pseudo inverse of the moment matrix '
-                  'of its own key; the only writer stores pinv(_fd_matrix(key)) under exactly that key',
+                  'of its own key; the only writer stores pinv(_fd_matrix(key)) under exactly that key, complete at the moment it is stored '
+                  'and never written afterwards (the thread clause: another thread may hit the entry at any time)',
     'R-NOSHARE': 'no mutable default argument and no stateful module level instance is shared between objects on the '
                  'call path; the difference-function holders stored on the rule classes have no instance state',
     'R-NOMUTATE': 'a call never writes in place into its input array x, into the call arguments, or into the arrays of a user built '
@@ -40,7 +41,7 @@ def run(ctx):
     rep.assume('dict get/insert of the rule memo is atomic under the GIL; entries are never modified after insertion '
                '(checked: rows are only read, negation allocates)')
     for rid, text in RULES.items():
-        rep.rule(rid, text, {'R-HISTORY': 40, 'R-EFFECTS': 4, 'R-CACHEKEY': 2, 'R-NOSHARE': 5, 'R-NOMUTATE': 6}[rid])
+        rep.rule(rid, text, {'R-HISTORY': 40, 'R-EFFECTS': 4, 'R-CACHEKEY': 3, 'R-NOSHARE': 5, 'R-NOMUTATE': 6}[rid])
     core = ctx.repo.module('core')
     scenarios = []
     scenarios += [('core.Derivative', s) for s in history.setter_scenarios('Derivative', None, ctx.tier)]
@@ -201,7 +202,17 @@ def cachekey(ctx):
     r = Poly.sym('r')
     cache = P.cache()
     before = set(cache)
-    I.getattr(obj, 'rule')(r)
+    published = []           # (buffer, number of writes it had when it was put into the shared table)
+    I.on_dict_store = lambda d, k, v: published.append((v.buf, len(v.buf.writes), repr(k)[:60])) if d is cache and isinstance(v, Arr) else None
+    try:
+        I.getattr(obj, 'rule')(r)
+        I.getattr(obj, 'rule')(r)
+    finally:
+        I.on_dict_store = None
+    late = [{'key': k, 'writes_after_the_store': len(buf.writes) - n0} for buf, n0, k in published if len(buf.writes) > n0]
+    rep.check(not late, 'R-CACHEKEY', 'finite_difference.LogRule.rule', fd.relpath, {'stores': len(published), 'written_after_publication': late[:2]},
+              'an entry is complete when it enters the process wide table and is never written afterwards (another thread may read it '
+              'at any time)', 'LogRule(n=3, central, order=4).rule(r): publication', key='cache-publication')
     new = [k for k in cache if k not in before]
     ok = False
     fact = {'new_keys': [repr(k) for k in new]}
